@@ -230,6 +230,10 @@ def build_ops(case, cb):
         top_edges[pos - 4] = edge_object(d, cb, False)
     bottom = cb.Face(pts[:4], bottom_edges)
     top = cb.Face(pts[4:], top_edges)
+    if int(abs(float(pts[0][0])) * 1e6) % 3 == 0:
+        # calls that ask for nothing: a computed list of corners to clear that happens to be empty
+        bottom.remove_edges([])
+        top.remove_edges([])
     t = case["treat"]
     if t[0] == "invert":
         bottom, top = top.invert(), bottom.invert()
